@@ -33,6 +33,14 @@ func (o *Operations) Move(from string, to string) error {
 		return err
 	}
 
+	// Free the drive if we return before the writer has been closed
+	writerOpen := true
+	defer func() {
+		if writerOpen {
+			_ = o.backend.CloseWriter()
+		}
+	}()
+
 	dirty := false
 	tw, cleanup, err := tarext.NewTapeWriter(writer.Drive, writer.DriveIsRegular, o.pipes.RecordSize)
 	if err != nil {
@@ -126,6 +134,7 @@ func (o *Operations) Move(from string, to string) error {
 		return err
 	}
 
+	writerOpen = false
 	if err := o.backend.CloseWriter(); err != nil {
 		return err
 	}
